@@ -51,11 +51,11 @@ type ExploreStats struct {
 	ElisionOff   bool // elision had to be switched off
 	Violations   []Found
 	MaxPreempt   int
-	SleepBlocked int  // executions cut by the sleep sets (redundant prefixes)
-	Diverged     bool // executions were not reproducible (global state survives between executions): the search was abandoned
-	SelectSeen   bool // mode A was abandoned because the program executes a select statement
+	SleepBlocked int    // executions cut by the sleep sets (redundant prefixes)
+	Diverged     bool   // executions were not reproducible (global state survives between executions): the search was abandoned
+	SelectSeen   bool   // mode A was abandoned because the program executes a select statement
 	Unmodelled   string // an execution met something the runtime model does not cover: the search of this program was stopped
-	GlobalsReset bool // the exploration was redone with the package-level state reset before every execution
+	GlobalsReset bool   // the exploration was redone with the package-level state reset before every execution
 }
 
 // Explore enumerates depth-first every schedule of prog whose number of
